@@ -161,11 +161,136 @@ func runC10(c *Ctx) {
 	c10R5(c)
 	c10R7(c)
 	c10R8(c)
+	c10R10(c)
 	c07R4As(c, c.R.Rule("R9", "K3 (= C07.R4) the DLQ's fatal causes: in both engines a nack the window refuses is a fatal error when the DLQ is enabled, and a v2 DLQ write failure — a failed call or a negative per-record ack — is fatal", 6))
 }
 
 // c10R8: a stop issued while the run is parked in the recovery back-off wins
 // over the restart (F13, both engines).
+// c10R10: with workers > 1 the processor node runs behind a ParallelNode; the classification of the failure is
+// carried by the error the worker's node returns from Run (F24), so that error has to reach ParallelNode.Run's
+// result: (a) the result of node.Run is sent on a channel, (b) that channel is the one ParallelNode.Run listens on
+// (the errs argument of base.Trigger), (c) Run's result is a named result which the deferred drain assigns, and
+// the drain consults IsFatalError (a fatal error is not replaced by the raw nack error that arrived first).
+func c10R10(c *Ctx) {
+	r := c.R.Rule("R10", "K6 the parallel processor node keeps the classification: the error a worker's node returns from Run is sent on the channel ParallelNode.Run listens on, and the deferred drain of that channel assigns Run's (named) result with a fatal error winning over a non-fatal one", 4)
+	nodeF := c.Field(r, pStream, "parallelNodeWorker", "node")
+	run := c.SSA(r, pStream, "(*ParallelNode).Run")
+	pkg := c.W.Pkg(pStream)
+	isFatal := c.Fn(r, pCerrors, "IsFatalError")
+	trigger := c.Fn(r, pStream, "(*pubSubNodeBase).Trigger")
+	if nodeF == nil || run == nil || pkg == nil || isFatal == nil || trigger == nil {
+		return
+	}
+	sp := c.W.SSA[pkg.Types]
+	// (a) every node.Run(...) on the worker's node: its error flows into a channel send; collect the fields the
+	// channel is loaded from
+	var chanFields []*types.Var
+	n := 0
+	for _, fn := range c.W.AllFuncs(sp) {
+		for _, b := range fn.Blocks {
+			for _, in := range b.Instrs {
+				call, ok := in.(*ssa.Call)
+				if !ok || !call.Call.IsInvoke() || call.Call.Method.Name() != "Run" || !kit.IsFieldLoad(call.Call.Value, nodeF) {
+					continue
+				}
+				n++
+				sent := kit.FlowsTo(call, func(u ssa.Instruction, v ssa.Value) bool {
+					s, ok := u.(*ssa.Send)
+					if !ok || s.X != v {
+						return false
+					}
+					if f := kit.FieldOf(s.Chan); f != nil {
+						chanFields = append(chanFields, f)
+					}
+					return true
+				})
+				c.R.Check(sent, r, kit.FuncKey(fn)+": the worker node's Run error is reported", c.Pos(call.Pos()), "sent on a channel", "the error returned by the worker's node is discarded: with workers > 1 the FatalError a ProcessorNode returns (unabsorbed processor error, record-count mismatch, unknown result) never reaches ParallelNode.Run — the raw nack error is classified as transient and the pipeline is restarted instead of degraded, or the failure is lost entirely when the DLQ absorbed the nack", true)
+			}
+		}
+	}
+	c.R.Check(n >= 1, r, "parallelNodeWorker: node.Run call", c.Pos(run.Pos()), "found", "no call of Run on parallelNodeWorker.node found", true)
+	// (b) the channel stored into that field by ParallelNode.Run is the errs channel handed to base.Trigger
+	var errsVals []ssa.Value
+	mks := kit.Instrs(run, func(in ssa.Instruction) bool { _, ok := in.(*ssa.MakeChan); return ok })
+	for _, t := range kit.CallsTo(run, Set(trigger)) {
+		a := t.Common().Args
+		for _, mk := range mks {
+			if kit.IsVar(kit.Unwrap(a[len(a)-1]), mk.(*ssa.MakeChan)) {
+				errsVals = append(errsVals, mk.(*ssa.MakeChan))
+			}
+		}
+	}
+	c.R.Check(len(errsVals) == 1, r, "ParallelNode.Run: the errs channel handed to base.Trigger", c.Pos(run.Pos()), "found", "the channel ParallelNode.Run hands to base.Trigger is not a channel it made", true)
+	same := func(v ssa.Value) bool {
+		for _, e := range errsVals {
+			if kit.IsVar(kit.Unwrap(v), e) {
+				return true
+			}
+		}
+		return false
+	}
+	for _, f := range chanFields {
+		ok := false
+		for _, fn := range kit.WithAnon(run) {
+			for _, st := range kit.FieldStores(fn, f) {
+				if same(st.Val) {
+					ok = true
+				}
+			}
+		}
+		if !ok {
+			// or handed to the constructor
+			for _, e := range errsVals {
+				if kit.FlowsTo(e, func(u ssa.Instruction, v ssa.Value) bool {
+					st, isSt := u.(*ssa.Store)
+					return isSt && st.Val == v && kit.SameField(kit.FieldOf(st.Addr), f)
+				}) {
+					ok = true
+				}
+			}
+		}
+		c.R.Check(ok, r, "ParallelNode.Run: workers report on the channel Run listens on", c.Pos(run.Pos()), f.Name(), "the channel the workers report their node's error on ("+f.Name()+") is not the errs channel ParallelNode.Run's trigger and drain read", true)
+	}
+	// (c) named result assigned by the deferred drain, which consults IsFatalError
+	res := run.Signature.Results()
+	named := res.Len() == 1 && res.At(0).Name() != "" && res.At(0).Name() != "_"
+	c.R.Check(named, r, "ParallelNode.Run: named result", c.Pos(run.Pos()), "named", "ParallelNode.Run's result is unnamed: the deferred drain of the errs channel can only log what it finds, a worker's fatal error that was not the first to arrive is lost", true)
+	if named {
+		drainOK := false
+		for _, fn := range kit.WithAnon(run) {
+			if fn == run {
+				continue
+			}
+			recv, stores, fatalAsked := false, false, len(kit.CallsTo(fn, Set(isFatal))) > 0
+			for _, b := range fn.Blocks {
+				for _, in := range b.Instrs {
+					switch x := in.(type) {
+					case *ssa.Select:
+						for _, st := range x.States {
+							if st.Dir == types.RecvOnly && same(st.Chan) {
+								recv = true
+							}
+						}
+					case *ssa.UnOp:
+						if x.Op == token.ARROW && same(x.X) {
+							recv = true
+						}
+					case *ssa.Store:
+						if fv, ok := x.Addr.(*ssa.FreeVar); ok && fv.Name() == res.At(0).Name() {
+							stores = true
+						}
+					}
+				}
+			}
+			if recv && stores && fatalAsked {
+				drainOK = true
+			}
+		}
+		c.R.Check(drainOK, r, "ParallelNode.Run: the drain keeps a fatal error", c.Pos(run.Pos()), "drain assigns the result, consulting IsFatalError", "no deferred function of ParallelNode.Run receives from errs, assigns the named result and consults cerrors.IsFatalError: whether the pipeline is degraded or restarted depends on which error reached the main loop first", true)
+	}
+}
+
 func c10R8(c *Ctx) {
 	c10R8As(c, c.R.Rule("R8", "K3 stopped stays stopped during the back-off (both engines): StartWithBackoff restarts only on the !intentionalStop and !isGracefulShutdown edges, every stop that kills the tomb sets the marker first, StopAll sets the shutdown marker, and the cleanup goroutine finalizes the sentinels StartWithBackoff returns as UserStopped / SystemStopped, never Degraded", 13))
 }
@@ -898,9 +1023,46 @@ func runC11(c *Ctx) {
 	c11R8(c)
 	c11R9(c)
 	c11R10(c)
+	c11R13(c)
 	c10R1As(c, c.R.Rule("R12", "K3 (= C10.R1) the stored status agrees with how the run ended: in the cleanup goroutine of both engines Degraded is written only for a fatal error or a failed recovery, and a stopped status only where the run's error is known not to be fatal", 14))
 	r11 := c.R.Rule("R11", "K5 frozen guarded-by table: pipeline.Instance.status is read and written only under statusLock (the status Start/Stop decide on is never a torn or stale read)", 2)
 	c.guardTable(r11, guardEntry{Rel: pPipe, Struct: "Instance", Mutex: "statusLock", Fields: []string{"status"}, Min: 2})
+}
+
+// c11R13: the cleanup goroutines of both engines write the run's final status exactly once and, when that write
+// cannot be persisted, leave with the run's entry still published — what keeps the pipeline startable is that the
+// live instance already carries the final status. UpdateStatus therefore publishes the status it was given
+// unconditionally: every SetStatus in it stores its parameter, and the first one precedes the persist.
+func c11R13(c *Ctx) {
+	r := c.R.Rule("R13", "K6/K3 the live status follows the run's end even when it cannot be persisted: every Instance.SetStatus in pipeline.Service.UpdateStatus stores the status parameter (no roll-back to the previous status — the cleanup goroutine leaves on a failed terminal write, a status left at Running with no live run refuses every later Start), and it precedes store.Set", 3)
+	fn := c.SSA(r, pPipe, "(*Service).UpdateStatus")
+	set := c.Fn(r, pPipe, "(*Instance).SetStatus")
+	storeSet := c.Fn(r, pPipe, "(*Store).Set")
+	if fn == nil || set == nil || storeSet == nil {
+		return
+	}
+	var param ssa.Value
+	for _, p := range fn.Params {
+		if n, ok := p.Type().(*types.Named); ok && n.Obj().Name() == "Status" {
+			param = p
+		}
+	}
+	if param == nil {
+		c.R.Unresolved(r, "UpdateStatus: status parameter")
+		return
+	}
+	calls := kit.CallsToDeep(fn, Set(set))
+	c.R.Check(len(calls) >= 1, r, "UpdateStatus: sets the live status", c.Pos(fn.Pos()), "SetStatus", "UpdateStatus no longer calls Instance.SetStatus", true)
+	g := kit.NewGates()
+	for _, call := range calls {
+		a := call.Common().Args
+		ok := kit.IsVar(a[len(a)-1], param)
+		c.R.Check(ok, r, "UpdateStatus: SetStatus stores the requested status", c.Pos(call.Pos()), "status parameter", "UpdateStatus sets the live status to something other than the status it was asked to record (a roll-back on a failed persist): a run whose terminal status write fails is left reported as Running with no live run — Start is refused with ErrPipelineRunning for ever, Stop resolves a dead run", true)
+		if ok {
+			g.AddInstr(call, "SetStatus(status)")
+		}
+	}
+	c.Dominated(r, "UpdateStatus: live status set before the persist", asInstrs(kit.CallsTo(fn, Set(storeSet))), g, "pipeline.SetStatus(status)")
 }
 
 // c11R10: a run whose start-up fails after its nodes were started is ended
@@ -1382,6 +1544,7 @@ func runC12(c *Ctx) {
 	c11R6(c)
 	c10R8As(c, c.R.Rule("R8", "K3 (= C10.R8) force-stopped stays stopped: a run parked in the recovery back-off is not restarted once a stop marked it — the marker is read after the wait, every stop that kills the tomb sets it first, and the cleanup goroutine finalizes it as UserStopped", 13))
 	c12R9(c)
+	c05SharedDest(c, c.R.Rule("R10", "K4/K3 (= C05.R4) v2 no ack of an unhandled record after a force stop: a worker enters a shared destination only under sharedMu and re-checks the poison flag after acquiring it — a worker queued behind the pass the force stop broke never takes that pass's leftover reply as the confirmation of its own record (and acks it to its source)", 6))
 	msgNotDropped(c, c.R.Rule("R7", "K4 (= C06.R10) no message forgotten (v1): a stream node that received a message sends it on, hands it over, acks it or nacks it on every path — also on the ctx.Done() arms a force stop takes — so the source's wait for open messages, and with it the run, always ends", 8))
 }
 
@@ -1498,6 +1661,31 @@ func c12R3(c *Ctx) {
 			c.R.Fail(r, "v1 stopForceful: node ForceStop", c.Pos(fn.Pos()), "no ForceStop call on nodes")
 		}
 		c.Dominated(r, "v1 stopForceful: tomb killed (fatal) before nodes are force-stopped", fstops, g, "rp.t.Kill(FatalError(ErrForceStop))")
+		// ... and on every exit: no return of stopForceful bypasses the loop over the nodes (a run whose tomb is
+		// already dying still has nodes blocked in plugin calls that only end when their connector context is
+		// cancelled by ForceStop)
+		for _, fs := range fstops {
+			h := fs.Block()
+			for h != nil {
+				back := false
+				for _, p := range h.Preds {
+					if h.Dominates(p) {
+						back = true
+					}
+				}
+				if back {
+					break
+				}
+				h = h.Idom()
+			}
+			if h == nil {
+				c.R.Fail(r, "v1 stopForceful: ForceStop is called in a loop over the nodes", c.Pos(fs.Pos()), "the ForceStop call is not inside a loop")
+				continue
+			}
+			for _, ret := range kit.Returns(fn) {
+				c.R.Check(h.Dominates(ret.Block()), r, "v1 stopForceful: every exit force-stops the nodes", c.Pos(posOf(ret)), "behind the node loop", "stopForceful can return without force-stopping the nodes: a run that is already failing (tomb dying, status still Running) keeps nodes blocked in destination/DLQ plugin calls that only return when ForceStop cancels their connector context — the forced stop does not end the run", true)
+			}
+		}
 	}
 	if fn := c.SSA(r, pLife2, "(*Service).runPipeline"); fn != nil {
 		tctx := c.W.ExtMethod("gopkg.in/tomb.v2", "Tomb", "Context")
